@@ -121,6 +121,10 @@ func concretise(c *tcase) string {
 					w = `"s"`
 				case "PROTO3":
 					w = `"proto3"`
+				case "PROTO2":
+					w = `"proto2"`
+				case "E2023":
+					w = `"2023"`
 				}
 				sb.WriteString(w) // token symbol: the word followed by one space
 				sb.WriteByte(' ')
@@ -185,6 +189,10 @@ func concretise(c *tcase) string {
 			return ins(c.Pos, "\\")
 		case "blockc":
 			return ins(c.Pos, "/*")
+		case "cr":
+			return ins(c.Pos, "\r")
+		case "crlfall":
+			return strings.ReplaceAll(t, "\n", "\r\n")
 		case "closer":
 			return ins(c.Pos, closers[c.Arg%3])
 		case "nestopen":
@@ -526,7 +534,7 @@ func main() {
 				lens[j] = t[1] - t[0]
 			}
 			_ = enc.Encode(map[string]any{"idx": i + 1, "path": b.Path, "bytes": len(b.Text), "toklens": lens,
-				"utf8": utf8.ValidString(b.Text)})
+				"utf8": utf8.ValidString(b.Text), "lfs": strings.Count(b.Text, "\n")})
 		}
 		return
 	}
